@@ -307,7 +307,12 @@ func (w *world) addTimer(d int64, period int64, fire func()) *vtimer {
 	return t
 }
 
-func (w *world) fireNextTimer() bool {
+// fireNextTimer fires the earliest pending timer.  Automatic firing (all
+// goroutines blocked) lets a periodic timer fire at most TickerBudget times per
+// path; oneShotOnly restricts the choice to non-periodic timers.
+func (w *world) fireNextTimer() bool { return w.fireTimer(false) }
+
+func (w *world) fireTimer(oneShotOnly bool) bool {
 	s := &w.sched
 	var live []*vtimer
 	for _, t := range s.timers {
@@ -316,27 +321,56 @@ func (w *world) fireNextTimer() bool {
 		}
 	}
 	s.timers = live
-	if len(live) == 0 {
+	var cand []*vtimer
+	for _, t := range live {
+		if oneShotOnly && t.period > 0 {
+			continue
+		}
+		if t.period > 0 && t.fires >= w.cfg.TickerBudget {
+			continue // automatic budget used up; only TickPeriodic fires it
+		}
+		cand = append(cand, t)
+	}
+	if len(cand) == 0 {
 		return false
 	}
-	sort.SliceStable(live, func(i, j int) bool {
-		if live[i].when != live[j].when {
-			return live[i].when < live[j].when
+	sort.SliceStable(cand, func(i, j int) bool {
+		if cand[i].when != cand[j].when {
+			return cand[i].when < cand[j].when
 		}
-		return live[i].seq < live[j].seq
+		return cand[i].seq < cand[j].seq
 	})
-	t := live[0]
+	t := cand[0]
 	if t.when > s.now {
 		s.now = t.when
 	}
-	t.fires++
-	if t.period > 0 && t.fires < w.cfg.TickerBudget {
+	if t.period > 0 {
+		t.fires++
 		t.when = s.now + t.period
 	} else {
 		t.stopped = true
 	}
 	t.fire()
 	return true
+}
+
+// firePeriodic fires every live periodic timer once (harness-driven, not
+// counted against the automatic budget).  It reports whether there was one.
+func (w *world) firePeriodic() bool {
+	s := &w.sched
+	any := false
+	for _, t := range append([]*vtimer(nil), s.timers...) {
+		if t.stopped || t.period <= 0 {
+			continue
+		}
+		any = true
+		if t.when > s.now {
+			s.now = t.when
+		}
+		t.when = s.now + t.period
+		t.fire()
+	}
+	return any
 }
 
 // ---------------------------------------------------------------------
